@@ -9,8 +9,13 @@ def _split(n):
         return None, None
     if n.k == 'MemberExpr' and n.n in ('x', 'y', 'u', 'v', 'X', 'Y') and n.child('base') is not None:
         b = n.child('base')
+        while b is not None and b.k == 'MemberExpr' and not b.n:
+            b = b.child('base')
         bk = lvalue_key(b)
         return bk, n.n
+    if n.k == 'BinaryOperator' and n.op in ('+', '-'):
+        comps = {m.n for m in n.walk() if m.k == 'MemberExpr' and m.n in ('x', 'y', 'u', 'v', 'X', 'Y')}
+        return 'expr:' + n.text(), (comps.pop() if len(comps) == 1 else ('mixed' if comps else None))
     return lvalue_key(n), None
 
 
